@@ -166,29 +166,40 @@ def lanczos_options(rec, quick):
 def vumps_check(rec, quick):
     from tenpy.networks.mps import MPS
     from tenpy.models.tf_ising import TFIChain
-    from tenpy.algorithms import vumps, dmrg
-    from tenpy.models.tf_ising import TFIChain
+    from tenpy.models.xxz_chain import XXZChain
+    from tenpy.algorithms import vumps
     import scipy.integrate
     g = 1.5
     # exact energy per site of the infinite transverse-field Ising chain  H = -J sum sx sx - g sum sz
     f = lambda k: -np.sqrt(1 + g ** 2 - 2 * g * np.cos(k)) / np.pi
     e_exact = scipy.integrate.quad(f, 0, np.pi)[0]
-    for ename, Eng in (('SingleSiteVUMPSEngine', vumps.SingleSiteVUMPSEngine), ('TwoSiteVUMPSEngine', vumps.TwoSiteVUMPSEngine)):
+    cases = []
+    for ename in ('SingleSiteVUMPSEngine', 'TwoSiteVUMPSEngine'):
         for Luc in ([2] if quick else [1, 2, 3]):
             if ename == 'TwoSiteVUMPSEngine' and Luc < 2:
                 continue
-            M = TFIChain({'L': Luc, 'J': 1., 'g': g, 'bc_MPS': 'infinite', 'conserve': None})
-            psi = MPS.from_desired_bond_dimension(M.lat.mps_sites(), 8, bc='infinite')
-            opts = {'trunc_params': {'chi_max': 16, 'svd_min': 1e-10}, 'max_sweeps': 60, 'min_sweeps': 5, 'mixer': False}
-            inp = {'engine': ename, 'unit_cell': Luc, 'model': f'TFI g={g}'}
-            rec.begin(f'C13 {inp}')
-            ok, res = rec.guarded(f'{ename}:exception', lambda: Eng(psi, M, opts).run(), inp)
-            rec.case(('vumps', ename, Luc), True)
-            if not ok:
-                continue
-            E, psi_out = res
-            rec.check(abs(E - e_exact) < 1e-5, f'{ename}:energy-per-site', f'E={E}, exact {e_exact}', inp)
-            rec.check(E >= e_exact - 1e-7, f'{ename}:E-below-exact', f'E={E} < exact {e_exact}', inp)
-            EH = np.mean(M.bond_energies(psi_out))
-            rec.check(abs(E - EH) < 1e-6, f'{ename}:E-not-expectation-value', f'E={E}, <H>/site={EH}', inp)
-            rec.check(np.max(np.abs(psi_out.norm_test())) < 1e-6, f'{ename}:not-canonical', str(np.max(np.abs(psi_out.norm_test()))), inp)
+            for hc in (False, True):          # explicit_plus_hc: the effective Hamiltonians are wrapped as H + H^dagger
+                if hc and Luc != 2:
+                    continue
+                cases.append((ename, Luc, hc, f'TFI g={g}',
+                              lambda Luc=Luc, hc=hc: TFIChain({'L': Luc, 'J': 1., 'g': g, 'bc_MPS': 'infinite', 'conserve': None, 'explicit_plus_hc': hc}), e_exact))
+    cases.append(('TwoSiteVUMPSEngine', 2, True, 'XXZ Jz=0.5 (explicit_plus_hc)',
+                  lambda: XXZChain({'L': 2, 'Jxx': 1., 'Jz': 0.5, 'hz': 0., 'bc_MPS': 'infinite', 'conserve': None, 'explicit_plus_hc': True}), None))
+    for ename, Luc, hc, mname, mk, e_ref in cases:
+        Eng = getattr(vumps, ename)
+        M = mk()
+        psi = MPS.from_desired_bond_dimension(M.lat.mps_sites(), 8, bc='infinite')
+        opts = {'trunc_params': {'chi_max': 16, 'svd_min': 1e-10}, 'max_sweeps': 60, 'min_sweeps': 5, 'mixer': False}
+        inp = {'engine': ename, 'unit_cell': Luc, 'model': mname, 'explicit_plus_hc': hc}
+        rec.begin(f'C13 {inp}')
+        ok, res = rec.guarded(f'{ename}:exception', lambda: Eng(psi, M, opts).run(), inp)
+        rec.case(('vumps', ename, Luc, hc, mname), True)
+        if not ok:
+            continue
+        E, psi_out = res
+        if e_ref is not None:
+            rec.check(abs(E - e_ref) < 1e-5, f'{ename}:energy-per-site', f'E={E}, exact {e_ref}', inp)
+            rec.check(E >= e_ref - 1e-7, f'{ename}:E-below-exact', f'E={E} < exact {e_ref}', inp)
+        EH = np.mean(M.bond_energies(psi_out))
+        rec.check(abs(E - EH) < 1e-6, f'{ename}:E-not-expectation-value', f'E={E}, <H>/site={EH}', inp)
+        rec.check(np.max(np.abs(psi_out.norm_test())) < 1e-6, f'{ename}:not-canonical', str(np.max(np.abs(psi_out.norm_test()))), inp)
